@@ -209,12 +209,28 @@ def setup_by_calls(opt, items):
         opt.enable_fit(it['param'])
         if it.get('mode_switch'):
             opt.set_mode(it['param'], it['mode_switch'])
-        if it.get('bounds') is not None:
+        if it.get('bounds_obj') is not None:          # the caller's own container, handed over as it is
+            opt.set_boundary(it['param'], it['bounds_obj'])
+        elif it.get('bounds') is not None:
             opt.set_boundary(it['param'], list(it['bounds']))
         if it['route'] == 'set_prior':
             opt.set_prior(it['param'], it['prior'])
         elif it['route'] == 'text':
             opt.set_prior(it['param'], create_prior(it['text']))
+
+
+def apply_fitting_lines(opt, lines):
+    """A [Fitting] section made of `lines` ("name:key = value"), read and applied by ParameterParser.setup_optimizer."""
+    from taurex.parameter import ParameterParser
+    fd, path = tempfile.mkstemp(prefix='verifpar_', suffix='.par')
+    try:
+        with os.fdopen(fd, 'w') as f:
+            f.write('\n'.join(['[Fitting]'] + list(lines)) + '\n')
+        pp = ParameterParser()
+        pp.read(path)
+        pp.setup_optimizer(opt)
+    finally:
+        os.unlink(path)
 
 
 def setup_by_file(opt, items):
